@@ -93,3 +93,75 @@ Proof.
   - rewrite EQ, CN, CM'. reflexivity.
   - rewrite CM', ST in DL. rewrite timeout_deadline_core_eq in DL by exact CC. exact DL.
 Qed.
+
+(* ------------------------------------------------------------------ every other TIMEOUT reply is an immediate answer *)
+From Slock Require Import Engine.TimeEvLock.
+
+Definition no_tr (ev : list event) : Prop := forall e, In e ev -> is_tr e = false.
+
+Lemma no_tr_app a b : no_tr a -> no_tr b -> no_tr (a ++ b).
+Proof. intros A B e I. apply in_app_iff in I. destruct I; auto. Qed.
+Lemma quiet_no_tr ev : quiet ev -> no_tr ev.
+Proof. intros Q e I. apply (Q e I). Qed.
+
+Lemma sweep_e_slot_no_tr slot nowv : forall fuel s due ev,
+  no_tr ev -> no_tr (snd (sweep_e_slot fuel s slot nowv due ev)).
+Proof.
+  induction fuel as [|f IH]; intros s due ev Q; cbn [sweep_e_slot]; [exact Q|].
+  destruct (wheel_get (ewheel s) slot) as [|r rest]; [exact Q|].
+  repeat match goal with |- context [if ?b then _ else _] => destruct b end; cbn [snd]; auto.
+  match goal with |- context [add_expried ?a ?b ?c] =>
+    pose proof (quiet_add_expried a b c) as QA; destruct (add_expried a b c) as [s3 aev] end.
+  cbn [snd] in QA. apply IH. apply no_tr_app; auto using quiet_no_tr.
+Qed.
+
+Lemma collect_expiries_no_tr s t nowv : no_tr (snd (collect_expiries s t nowv)).
+Proof.
+  unfold collect_expiries.
+  pose proof (sweep_e_slot_no_tr (slot_of t) nowv (10 * length (wheel_get (ewheel s) (slot_of t)) + 10) s [] []) as A.
+  destruct (sweep_e_slot _ s (slot_of t) nowv [] []) as [[s1 due] ev]. cbn [snd] in A.
+  destruct (aget (elong s1) (lkey t)); [destruct (sweep_long _ _ false due)|]; cbn [snd]; apply A; intros e [].
+Qed.
+
+Lemma fire_all_expried_no_tr : forall due s, no_tr (snd (fire_all do_expried s due)).
+Proof.
+  induction due as [|r rest IH]; intros s; cbn [fire_all]; [intros e []|].
+  destruct (finish_events (do_expried s r)) as (wev & EQ & QW).
+  destruct (finish (do_expried s r)) as [s1 e1]. cbn [snd] in EQ.
+  specialize (IH s1). destruct (fire_all do_expried s1 rest) as [s2 e2]. cbn [snd] in *.
+  apply no_tr_app; auto. rewrite EQ. apply no_tr_app; [exact (do_expried_no_timeout s r)|apply quiet_no_tr; auto].
+Qed.
+
+Lemma sweep_e_secs_no_tr nowv : forall n s t, no_tr (snd (sweep_e_secs n s t nowv)).
+Proof.
+  induction n as [|n IH]; intros s t; cbn [sweep_e_secs]; [intros e []|].
+  pose proof (collect_expiries_no_tr s t nowv) as A. destruct (collect_expiries s t nowv) as [[s1 due] e1]. cbn [snd] in A.
+  pose proof (fire_all_expried_no_tr due s1) as B. destruct (fire_all do_expried s1 due) as [s2 e2]. cbn [snd] in B.
+  specialize (IH s2 (t + 1)%Z). destruct (sweep_e_secs n s2 (t + 1) nowv) as [s3 e3]. cbn [snd] in *.
+  apply no_tr_app; auto. apply no_tr_app; auto.
+Qed.
+
+(* every TIMEOUT reply of a run comes from a timeout sweep, or is the immediate answer of a Lock request that is not
+   queued (Timeout = 0 or the timeout-when-data flag) *)
+Theorem timeout_replies_classified s a :
+  forall e, In e (snd (step s a)) -> is_tr e = true ->
+  a = ASweepT \/ exists conn c, a = AReq conn c /\ c_lock c = true /\ immediate_timeout conn c e.
+Proof.
+  intros e I TR. destruct a as [conn c|k| | |r ok|b]; cbn [step] in I; auto.
+  - right. exists conn, c. destruct (c_lock c) eqn:CL.
+    + split; auto. split; auto.
+      destruct (finish_events (lock_step s conn c)) as (wev & EQ & QW). rewrite EQ in I. apply in_app_iff in I.
+      destruct I as [I|I]; [apply lock_step_timeout_replies with (s := s); auto|destruct (QW e I); congruence].
+    + exfalso. destruct (finish_events (unlock_step s conn c)) as (wev & EQ & QW). rewrite EQ in I. apply in_app_iff in I.
+      destruct I as [I|I]; [destruct (quiet_unlock_step s conn c e I)|destruct (QW e I)]; congruence.
+  - destruct I.
+  - exfalso. unfold sweep_expiries in I. rewrite (sweep_e_secs_no_tr _ _ _ _ e I) in TR. discriminate.
+  - exfalso. destruct (finish_events (do_ack s r ok)) as (wev & EQ & QW). rewrite EQ in I. apply in_app_iff in I.
+    destruct I as [I|I]; [|destruct (QW e I); congruence].
+    unfold do_ack in I. destruct (aget (store s) r); [|destruct I as [<-|[]]; discriminate].
+    revert I. cbv zeta. repeat break_inner_e; cbn [fst snd]; quiet_hyps; intros I;
+      repeat (apply in_app_iff in I; destruct I as [I|I]);
+      try (match goal with Q : quiet ?ev, I : In e ?ev |- _ => destruct (Q e I); congruence end);
+      cbn [In] in I; repeat (destruct I as [<-|I]; [try (cbn in TR; discriminate TR)|]); try (destruct I).
+  - destruct I.
+Qed.
